@@ -43,6 +43,38 @@ def inheritance_heavy(rng, k):
     return out
 
 
+def forward_reference_heavy(rng, k):
+    """declarations that USE several types / groups / parents declared LATER in the file: the
+    analyzer hoists them; the order it picks must not depend on a hash seed"""
+    out = []
+    for i in range(k):
+        n = rng.randint(3, 6)
+        users, deps = [], []
+        for j in range(n):
+            kind = rng.choice(["struct", "enum", "group", "fixed", "array"])
+            if kind == "struct":
+                deps.append(pdlast.struct(f"S{j}", [pdlast.scalar("a", 8 * rng.randint(1, 3))]))
+                users.append(pdlast.typedef(f"f{j}", f"S{j}"))
+            elif kind == "enum":
+                deps.append(pdlast.enum(f"E{j}", 8, [pdlast.tag_v("A", 0), pdlast.tag_v("B", 1 + j)]))
+                users.append(pdlast.typedef(f"f{j}", f"E{j}"))
+            elif kind == "fixed":
+                deps.append(pdlast.enum(f"X{j}", 8, [pdlast.tag_v("A", 3), pdlast.tag_v("B", 9)]))
+                users.append(pdlast.fixed_e(f"X{j}", "A"))
+            elif kind == "group":
+                deps.append(pdlast.group(f"G{j}", [pdlast.scalar(f"g{j}", 8)]))
+                users.append(pdlast.group_f(f"G{j}", []))
+            else:
+                deps.append(pdlast.struct(f"T{j}", [pdlast.scalar("a", 16)]))
+                users.append(pdlast.array(f"f{j}", type_id=f"T{j}", size=2))
+        rng.shuffle(deps)
+        head = pdlast.packet("User", users + [pdlast.payload()])
+        kid = pdlast.packet("Kid", [pdlast.typedef("s", deps[0]["id"])] if deps[0]["kind"] == "struct_declaration" else [pdlast.scalar("z", 8)],
+                            parent_id="User")
+        out.append((f"fwd{i}", pdlast.file(rng.choice(["little_endian", "big_endian"]), [kid, head] + deps)))
+    return out
+
+
 MARKERS = {
     "rust": ["pub struct {} ", "pub enum {} ", "pub struct {}("],
     "python": ["class {}("],
@@ -79,7 +111,8 @@ def run(tier, seed):
     violations = []
     counts = collections.Counter()
     samples = []
-    pool = inheritance_heavy(rng, 12 if quick else 80)
+    pool = forward_reference_heavy(rng, 8 if quick else 60)
+    pool += inheritance_heavy(rng, 6 if quick else 80)
     pool += [(f"wf{i}", ad.wellformed(rng)) for i in range(25 if quick else 300)]
     pool += rustcodec.modules_for(tier, seed)[:1]
     texts = [(n, pdlast.to_pdl(a)) for n, a in pool]
